@@ -76,7 +76,15 @@ LEVEL_TEXT = ('Machine-checked Coq theorems over all object graphs of the domain
               'values without tuples whose keys are all str (C14_native_roundtrip_iff), a non-str key always comes back as a different (str) key and '
               'distinct keys collide (C14_nonstr_keys_outside) -- so they are OUTSIDE the domain. The printer is compared byte for byte with the text '
               'sugar really writes on every generated basket, the scanner with json.loads on default / compact / indented / raw / padded / mutated / '
-              'hand-written invalid texts (tree, scalar kinds, float literals, ValueError), the tuple/key coercion with json and through sugar.')
+              'hand-written invalid texts (tree, scalar kinds, float literals, ValueError), the tuple/key coercion with json and through sugar. '
+              'BORDERS OF THE DOMAIN (round 7): LocationTuple(...) on Location objects always returns a non-empty one-strand tuple in the order of '
+              'transcription and is the identity on such tuples (C14_locationtuple_ordered), so everything that ends in LocationTuple(...) lands inside '
+              'the domain; a feature satisfying everything but the order is read back stably sorted and is equal exactly when it was in order '
+              '(C14_feature_roundtrip_sorts / _iff_sorted: the order clause is necessary); a feature with several strands makes the written file '
+              'unreadable, ValueError (C14_mixed_strands_unreadable: must stay out); residues are read back upper-cased, equal exactly when no lower-case '
+              'ASCII letter occurs (C14_lowercase_residues_uppercased: must stay out). Tied by the border stream: graphs violating exactly these clauses, '
+              'built by editing public Location attributes / seq.data in place, compared with the model (bytes, result, ValueError) and with a '
+              'first-principles expectation (upper-cased, stably sorted).')
 LEVEL_NOTE = ('Trusted: Coq kernel/vm_compute, tools/gen_data.py + tools/gens/c14.py (constants), the correspondence harness, CPython json/kwargs/enum. '
               'Modelled rather than verified: sjson.py, the constructors listed in trusted_base and CPython json (encoder/scanner, model/C14_Text.v; the '
               'digits of a float literal are decided by CPython and opaque, code points beyond Latin-1 are outside the model str). Tested only (not proved): '
@@ -194,6 +202,8 @@ def model_term(case):
             return 'out (run_C14_native %s)' % pterm(case['v'])
         check_shape(case['b'], 'BioBasket')
         assert case.get('via', 'file') in VIAS
+        if case.get('kind') == 'border':
+            return 'out (run_C14_border %s)' % term(case['b'])
         return 'out (run_C14_text %s)' % term(case['b'])          # [domain; written bytes; what reading them gives]
     except Exception:                       # malformed candidate produced by the generic shrinker
         return 'out (VL [VB false; VE (bs "Malformed"%bs)])'
@@ -231,6 +241,9 @@ def src(v, assign=False):
         m = 'None' if v[5] is None else src(['d'] + v[5][1:])
         return 'Location(%r, %r, %r, %r, meta=%s)' % (v[1], v[2], v[3], v[4], m)
     if t == 'Feature':
+        if len(set(l[3] for l in v[2])) > 1 or sort_locs(v[2]) != v[2]:
+            # several strands / not in order: not constructible, reachable by editing the public Location attributes in place
+            return '_mkfeat([%s], %s)' % (', '.join(src(x) for x in v[2]), src(v[1]))
         return 'Feature(locs=[%s], meta=%s)' % (', '.join(src(x) for x in v[2]), src(v[1]))
     if t == 'FeatureList':
         return 'FeatureList([%s])' % ', '.join(src(x) for x in v[1:])
@@ -248,7 +261,13 @@ PRELUDE = ('from sugar import BioSeq, BioBasket, read\n'
            'from sugar.core.fts import Feature, FeatureList, Location\n'
            'from sugar.core.meta import Attr, Meta\n'
            'def _mkseq(data, meta, typ):\n'
-           '    s = BioSeq("A")\n    s.data = data\n    s.meta = meta\n    s.type = typ\n    return s\n')
+           '    s = BioSeq("A")\n    s.data = data\n    s.meta = meta\n    s.type = typ\n    return s\n'
+           'def _mkfeat(locs, meta):\n'
+           '    want = [(l.start, l.stop, str(l.strand)) for l in locs]\n'
+           '    for i, l in enumerate(locs):\n        l.start, l.stop, l.strand = 2 * i, 2 * i + 1, "+"\n'
+           '    ft = Feature(locs=locs, meta=meta)\n'
+           '    for l, (a, b, s) in zip(ft.locs, want):\n        l.start, l.stop, l.strand = a, b, s\n'
+           '    return ft\n')
 
 
 def build(v, assign=False):
@@ -478,7 +497,7 @@ def spec(case, got):
         if isinstance(got, dict) and got['e'] not in DOCUMENTED_ERRORS:
             return 'reading hand-written SJSON raised the undocumented %s' % got['e']
         return None
-    if isinstance(got, dict):
+    if isinstance(got, dict) and case.get('kind') != 'border':
         return 'raised %s' % got['e']
     if case.get('kind') == 'hist':
         exps = history_expected(case)
@@ -490,9 +509,41 @@ def spec(case, got):
                 st = case['steps'][n]
                 return 'step %d (%s): %s %s' % (n, st['op'], 'object after the edit is not the edited graph' if exact else 'expected vs read back', d[:260])
         return None
+    if case.get('kind') == 'border':
+        exp = border_expected(case['b'])
+        if exp is None:
+            return None if isinstance(got, dict) and got['e'] == 'ValueError' else 'a feature with several strands was read back without ValueError'
+        if isinstance(got, dict):
+            return 'raised %s' % got['e']
+        d = _diff(canon(expected_snapshot(exp)), canon(got))
+        return ('border case: expected (residues upper-cased, locations in order) vs read back ' + d[:300]) if d else None
+    if isinstance(got, dict):
+        return 'raised %s' % got['e']
     exp = canon(expected_snapshot(case['b']))
     d = _diff(exp, canon(got))
     return ('written vs read back ' + d[:300]) if d else None
+
+
+def border_expected(g):
+    """first principles for graphs at the border of the domain: reading upper-cases the residues and puts the locations of every
+    feature into the order of transcription (stable); a feature with several strands cannot be read (None)"""
+    bad = []
+
+    def rec(v):
+        if isinstance(v, list) and v:
+            if v[0] == 'Feature':
+                locs = [rec(l) for l in v[2]]
+                if len(set(l[3] for l in locs)) > 1:
+                    bad.append(1)
+                return ['Feature', rec(v[1]), sort_locs(locs)]
+            if v[0] == 'BioSeq':
+                return ['BioSeq', v[1].upper(), v[2], rec(v[3])]
+            if v[0] == 'f':
+                return v
+            return [rec(x) for x in v]
+        return v
+    out = rec(g)
+    return None if bad else out
 
 
 # ----------------------------------------------------------------------------- statistics
@@ -774,6 +825,10 @@ def gen_cases(rng, tier):
     for i in range(nmut):
         opts = {rng.choice(['badkey', 'lower', 'noid', 'mixed', 'unsorted', 'dict_in_attr', 'cls_in_dict', 'badtype']): rng.choice([0.15, 0.5])}
         cases.append({'kind': 'mut', 'via': rng.choice(VIAS), 'b': g_basket(rng, opts, rng.choice([2, 3]))})
+    for i in range(250 if tier != 'thorough' else 3000):
+        # the border of the domain: exactly the clauses one strand / in order / no lower-case residue are violated
+        opts = {k: rng.choice([0.3, 0.7]) for k in rng.sample(['lower', 'mixed', 'unsorted'], rng.choice([1, 1, 2]))}
+        cases.append({'kind': 'border', 'via': rng.choice(VIAS), 'b': g_basket(rng, opts, rng.choice([1, 2, 3]))})
     for i in range(300 if tier != 'thorough' else 1500):
         cases.append(g_history(rng))
     for i in range(500 if tier != 'thorough' else 3000):
@@ -1706,7 +1761,7 @@ def g_pv(rng, depth, native=False):
         k = rng.choice(['a', 'b', '', 'k"', '1', 'true', 'null', 'caf\xe9', 'x y', '1.5'])
         if native and rng.random() < 0.45:
             k = rng.choice([['ki', rng.choice([0, 1, -3, 2 ** 70])], ['kb', rng.random() < 0.5], ['kn'], ['kf', rng.choice(['1.5', '0.0', '-0.0', 'nan', 'inf', '1e+16'])]] +
-                           ([['ko']] if rng.random() < 0.1 else []))
+                           ([['ko']] if rng.random() < 0.3 else []))
         kk = json.dumps(k)
         if kk in seen or k == '_cls':
             continue
